@@ -5,6 +5,8 @@ operators on local / register / register-pair targets, declarations with initial
 statements and blocks, if / if-else / else-if chains, for loops with constant and data-dependent
 trip counts 0..8, nested loops, stores and jumps, x E5 states driving every branch and trip count.
 """
+import re
+
 from vf import core, deviations, drive, native, prog, vcheck
 
 LEVEL = "exploration"
@@ -42,6 +44,8 @@ def leaves(tier):
     out += ["STORE_SLOT_CANCELLED(pkt, slot);", "cancel_slot;", 'fatal("C is broken");', "x = get_npc(pkt);"]
     out += ["y |= 0x100000001ULL; x /= y;", "y |= 0x100000001ULL; x %= y;", "x += (a < b);", "x <<= (a < b);", "y >>= !a;", "x *= (a && b);"]
     out += ["x /= ((a & 15) | 1);", "x %= ((a & 15) | 1);", "x = x / -3;", "y /= ((b & 15) | 1);"]
+    # declarations whose initialiser is wider / narrower / of other signedness than the declared type
+    out += ["int32_t lo = y; x = lo;", "int8_t t8 = x; y = t8;", "uint16_t t16 = y >> 8; x = t16; y = t16;", "int64_t w64 = x; y = w64;", "uint64_t u64 = RssV; int32_t l32 = u64; x = l32;"]
     out += ["RdV = x;", "RyyV = y;", "PeV = x;", "mem_store_u32((a & 0xfc), y);", "JUMP(x);", "int32_t t = x + 1; x = t * 2;", ";", "{ }", "{ x = x + 1; y = y + (uint32_t)x; }", "RxV += a;", "x = y = a;", "x = RdV = y = b;", "RdV = RxV = x = a;", "x = RdV = i++;", "RdV = x = clz32(b);", "y = x = RxV = RdV = a;"]
     return out
 
@@ -67,7 +71,7 @@ def space(tier):
     out = []
     for s in L:
         out.append(mk(s, ("leaf", s)))
-        if not s.startswith("int32_t"):
+        if not re.match(r"u?int\d+_t ", s):
             out.append(mk(s + " " + s, ("twice", s)))
     # pairs in both orders (source order must be kept)
     base = L if tier == "thorough" else L[:8] + SMALL + [x for x in L if x.startswith(("STORE_SLOT", "cancel_slot", "fatal", "x = get_npc"))]
@@ -79,7 +83,7 @@ def space(tier):
     for c in conds:
         for s in base:
             out.append(mk("if (%s) { %s }" % (c, s), ("if", c, s)))
-            if not s.startswith("int32_t") and s != ";":
+            if not re.match(r"u?int\d+_t ", s) and s != ";":
                 # `if (c) ;` is left out: the grammar reads it as a call of a function named `if` and the
                 # compiler rejects it with an exception (a C17 matter; a rejection is not a wrong translation)
                 out.append(mk("if (%s) %s" % (c, s), ("if-nobrace", c, s)))
